@@ -162,40 +162,41 @@ def _lossy_formats(fn):
 def rule_label_injective(ctx):
     R = "R-label-injective"
     fi = ctx.repo.find_function(f"{F_BASE}::format_quantiles")
+    cfg = cfg_of(ctx, fi)
     fmts = _lossy_formats(fi.node)
     lossy = [f for f in fmts if f[1] in ("lossy-constant", "dynamic")]
-    # distinctness established: a loop / assert test comparing len(set(<labels>)) with len(set(input)) or len(input)
-    tests = []
-    for n in walk_no_nested(fi.node):
-        if isinstance(n, (ast.While, ast.If, ast.Assert)):
-            for c in ast.walk(n.test):
-                cc = cmp_canon(c) if isinstance(c, ast.Compare) else None
-                if cc and cc[0].startswith("len(set(") and cc[2].startswith("len(") and cc[1] in ("<", "==", "!=", "<="):
-                    tests.append(n)
-    established = False
-    capped = None
-    for t in tests:
-        if isinstance(t, ast.While):
-            # the loop must be able to change the labels: its body re-formats with a dynamic spec,
-            # and its own bound must let the precision reach 16 decimals (17 significant digits,
-            # the shortest format that is injective on float64)
-            ok_loop = any(k == "dynamic" for _, k in _lossy_formats(t))
-            for c in conjuncts(t.test):
-                cc = cmp_canon(c)
-                if cc and cc[1] in ("<", "<=") and cc[2].lstrip("-").isdigit() and not cc[0].startswith("len("):
-                    reach = int(cc[2]) if cc[1] == "<" else int(cc[2]) + 1
-                    if reach < 16:
-                        ok_loop = False
-                        capped = reach
-            established = established or ok_loop
-        elif isinstance(t, ast.Assert):
-            established = True
     if not lossy:
         ctx.ob(R, construct(fi, "quantile labels use an exact (>= 16 digits) or no numeric format"), True, loc(fi))
         return
-    ctx.ob(R, construct(fi, "lossy number format used as label: distinctness of labels is established by a len(set(labels)) test"), established, loc(fi, lossy[0][0]),
-           "" if established else (f"precision escalation stops at {capped} decimals: float64 boundaries that agree on that many digits still share a label" if capped is not None else
-                                   "two boundaries that agree on the formatted digits get the same label; labels are dict keys, so their groups collapse at transform"))
+
+    def distinct_test(test):
+        for c in ast.walk(test):
+            cc = cmp_canon(c) if isinstance(c, ast.Compare) else None
+            if cc and cc[0].startswith("len(set(") and cc[2].startswith("len(") and cc[1] in ("<", "==", "!=", "<="):
+                return cc
+        return None
+
+    # Boundaries may be float64 *or* integers (order statistics of an int64 column): no float format
+    # is injective on integers beyond 2**53, so escalating the precision is not enough.  Distinctness
+    # is established by (a) an assertion on len(set(labels)), or (b) a final fallback, guarded by the
+    # same test, to an injective conversion (str / repr / float.hex) of every boundary.
+    established = False
+    for n in walk_no_nested(fi.node):
+        if isinstance(n, ast.Assert) and distinct_test(n.test):
+            established = True
+        if isinstance(n, ast.If) and distinct_test(n.test):
+            cc = distinct_test(n.test)
+            labels_var = cc[0][len("len(set("):-2]
+            for st in n.body:
+                if isinstance(st, ast.Assign) and unparse(st.targets[0]) == labels_var and isinstance(st.value, ast.ListComp):
+                    elt = st.value.elt
+                    tgt = unparse(st.value.generators[0].target)
+                    if isinstance(elt, ast.Call) and call_name(elt) in ("str", "repr", "hex") and len(elt.args) == 1 and unparse(elt.args[0]) == tgt and not st.value.generators[0].ifs:
+                        # it must be the last word: no lossy re-format of the labels afterwards
+                        later = [f for f, k in lossy if f.lineno > st.lineno]
+                        established = established or not later
+    ctx.ob(R, construct(fi, "lossy number format used as label: distinctness of the labels is established (assertion, or injective str() fallback under a len(set(labels)) test)"), established, loc(fi, lossy[0][0]),
+           "" if established else "two boundaries that agree on the formatted digits (close floats at low precision; any two integers beyond 2**53 at every precision) get the same label; labels are dict keys, so their groups collapse at transform or carving crashes")
 
 
 def rule_string_form(ctx):
@@ -311,10 +312,14 @@ _D11_FIXED = """    # scientific formatting, increasing precision until distinct
     while len(set(formatted_list)) < len(set(a_list)) and precision < 17:
         precision += 1
         formatted_list = [f"{number:.{precision}e}" for number in a_list]
+    # integers beyond 2**53 can not be told apart by a float format: using there exact digits
+    if len(set(formatted_list)) < len(set(a_list)):
+        formatted_list = [str(number) for number in a_list]
 """
 MUTANTS = [
     M("D11-reverted: labels rounded to 4 significant digits", [(F_BASE, _D11_FIXED, "    # scientific formatting\n    formatted_list = [f\"{number:.3e}\" for number in a_list]\n")], "R-label-injective", quick=True),
-    M("precision loop never re-formats", [(F_BASE, "        precision += 1\n        formatted_list = [f\"{number:.{precision}e}\" for number in a_list]\n", "        precision += 1\n")], "R-label-injective"),
+    M("D20-reverted: no exact-digits fallback for integers beyond 2**53", [(F_BASE, "    # integers beyond 2**53 can not be told apart by a float format: using there exact digits\n    if len(set(formatted_list)) < len(set(a_list)):\n        formatted_list = [str(number) for number in a_list]\n", "")], "R-label-injective", quick=True),
+    M("fallback formats again with a lossy spec", [(F_BASE, "        formatted_list = [str(number) for number in a_list]\n", "        formatted_list = [f\"{number:.17e}\" for number in a_list]\n")], "R-label-injective"),
     M("OrdinalDiscretizer stores the merged orders after the label table", [(F_QUAL, "        # discretizing features based on each feature's values_order\n        super().fit(x_copy, y)\n\n        return self\n\n\nclass ChainedDiscretizer", "        # discretizing features based on each feature's values_order\n        super().fit(x_copy, y)\n        self.values_orders.update(known_orders)\n\n        return self\n\n\nclass ChainedDiscretizer")], "R-labels-last", "OrdinalDiscretizer.fit", quick=True),
     M("StringDiscretizer never builds labels", [(F_TYPE, "        # discretizing features based on each feature's values_order\n        super().fit(X, y)\n", "        self.is_fitted = True\n")], "R-labels-last", "StringDiscretizer.fit"),
     M("Discretizer builds labels only when verbose", [(F_DISC, "        # discretizing features based on each feature's values_order\n        super().fit(X, y)\n\n        return self\n\n\nclass QualitativeDiscretizer", "        # discretizing features based on each feature's values_order\n        if self.verbose:\n            super().fit(X, y)\n\n        return self\n\n\nclass QualitativeDiscretizer")], "R-labels-last", "Discretizer.fit"),
@@ -332,7 +337,8 @@ BENIGN = [
     B("labels table inlined in nan restore", [(F_BASE, "                if self.str_nan in label_per_value:\n                    x_copy[feature] = x_copy[feature].replace(label_per_value[self.str_nan], nan)", "                if self.str_nan in self.labels_per_values[feature]:\n                    x_copy[feature] = x_copy[feature].replace(self.labels_per_values[feature][self.str_nan], nan)")]),
     B("nan restore conditions merged", [(F_BASE, "            if not dropna:  # checking whether we should have dropped nans or not\n                label_per_value = self.labels_per_values[feature]\n                # checking that nans were grouped\n                if self.str_nan in label_per_value:\n                    x_copy[feature] = x_copy[feature].replace(label_per_value[self.str_nan], nan)",
        "            label_per_value = self.labels_per_values[feature]\n            if self.str_nan in label_per_value and not dropna:\n                x_copy[feature] = x_copy[feature].replace(label_per_value[self.str_nan], nan)")]),
-    B("full precision labels", [(F_BASE, _D11_FIXED, "    formatted_list = [f\"{number:.16e}\" for number in a_list]\n")]),
+    B("labels are the exact digits from the start", [(F_BASE, _D11_FIXED, "    formatted_list = [str(number) for number in a_list]\n")]),
+    B("precision escalation capped lower (fallback still guarantees distinct labels)", [(F_BASE, "and precision < 17:", "and precision < 12:")]),
     B("float labels through range", [(F_BASE, "                labels = [n for n, _ in enumerate(labels)]", "                labels = list(range(len(labels)))")]),
     B("is_integer as method", [(F_TYPE, "        if isinstance(value, float) and float.is_integer(value):", "        if isinstance(value, float) and value.is_integer():")]),
 ]
